@@ -215,6 +215,36 @@ func DrawUnrelatedTOML(t *rapid.T, names []string) string {
 			fmt.Fprintf(&sb, "%s = %s\n", k, tomlScalar(t, "top"))
 		}
 	}
+	// unrelated names bound to something that is not a table: a well-known higher scoped name, another
+	// (non-configurable) lint's name, a made-up name - as scalar, array or inline table
+	for i, n := 0, rapid.IntRange(0, 2).Draw(t, "nodd"); i < n; i++ {
+		var k string
+		switch rapid.IntRange(0, 2).Draw(t, "oddkind") {
+		case 0:
+			k = globalSections[rapid.IntRange(0, len(globalSections)-1).Draw(t, "oddglobal")]
+		case 1:
+			k = names[rapid.IntRange(0, len(names)-1).Draw(t, "oddname")]
+			if cfg[k] {
+				continue
+			}
+		default:
+			k = "verif_odd_" + rapid.StringMatching(`[a-z]{1,4}`).Draw(t, "oddrnd")
+		}
+		if used[k] {
+			continue
+		}
+		used[k] = true
+		switch rapid.IntRange(0, 3).Draw(t, "oddshape") {
+		case 0:
+			fmt.Fprintf(&sb, "%s = %s\n", k, tomlScalar(t, "odd"))
+		case 1:
+			fmt.Fprintf(&sb, "%s = [1, 2, 3]\n", k)
+		case 2:
+			fmt.Fprintf(&sb, "%s = []\n", k)
+		default:
+			fmt.Fprintf(&sb, "%s = { x = 1 }\n", k)
+		}
+	}
 	for i, n := 0, rapid.IntRange(0, 4).Draw(t, "nsec"); i < n; i++ {
 		var sec string
 		switch rapid.IntRange(0, 3).Draw(t, "seckind") {
@@ -234,6 +264,11 @@ func DrawUnrelatedTOML(t *rapid.T, names []string) string {
 			continue
 		}
 		used[sec] = true
+		if !strings.Contains(sec, ".") && rapid.IntRange(0, 5).Draw(t, "arrtab") == 0 {
+			// array of tables under an unrelated name
+			fmt.Fprintf(&sb, "[[%s]]\nx = 1\n[[%s]]\nx = 2\n", sec, sec)
+			continue
+		}
 		fmt.Fprintf(&sb, "[%s]\n", sec)
 		ku := map[string]bool{}
 		for j, m := 0, rapid.IntRange(0, 3).Draw(t, "nkeys"); j < m; j++ {
